@@ -327,10 +327,12 @@ func malformedManifests() []struct {
 }
 
 type c15Case struct {
-	Text    string   `json:"text"`
-	Entries []string `json:"entries,omitempty"`
+	Text    string    `json:"text"`
+	Entries []string  `json:"entries,omitempty"`
 	M       *manifest `json:"manifest,omitempty"`
-	Name    string   `json:"presentation,omitempty"`
+	Name    string    `json:"presentation,omitempty"`
+	// Decoded is what the schema scalar of a schema-spelling case means
+	Decoded string `json:"schema_scalar_means,omitempty"`
 }
 
 func runMod(text string) (mf *transformer.ModFile, err error, pn any) {
@@ -603,6 +605,42 @@ func c15Run(ctx *core.Ctx) {
 			}
 		}
 	}
+	// spellings of the schema value: every YAML scalar style, with and without white space that a tolerant comparison would
+	// forgive. decoded is what the scalar means; the manifest may be accepted only if that is exactly "1.2", and then the
+	// returned value is exactly "1.2"
+	if ctx.Shard == 2%max(ctx.N, 1) {
+		spellings := []struct{ yaml, decoded string }{
+			{"'1.2'", "1.2"}, {"\"1.2\"", "1.2"}, {"\"\\u0031.2\"", "1.2"}, {"|-\n  1.2", "1.2"}, {">-\n  1.2", "1.2"},
+			{"|\n  1.2", "1.2\n"}, {">\n  1.2", "1.2\n"}, {"|+\n  1.2\n", "1.2\n\n"}, {"\"1.2\\n\"", "1.2\n"}, {"\"1.2 \"", "1.2 "},
+			{"' 1.2'", " 1.2"}, {"' 1.2 '", " 1.2 "}, {"\"1.2\\t\"", "1.2\t"}, {"\"\\t1.2\"", "\t1.2"}, {"'1.20'", "1.20"}, {"'01.2'", "01.2"},
+			{"\"1.2\\u00a0\"", "1.2\u00a0"}, {"\"1.2\\r\"", "1.2\r"}, {"'1.2\n\n  '", "1.2\n"}, {"'1,2'", "1,2"}, {"'1.2.0'", "1.2.0"}, {"''", ""},
+		}
+		for _, sp := range spellings {
+			for _, order := range []bool{true, false} {
+				text := "schema: " + sp.yaml + "\ncontents:\n  - 'a.fga'\n"
+				if !order {
+					text = "contents:\n  - 'a.fga'\nschema: " + sp.yaml + "\n"
+				}
+				ctx.Eval(1)
+				ctx.Trans(1)
+				mf, err, pn := runMod(text)
+				cs := c15Case{Text: text, Decoded: sp.decoded}
+				if pn != nil {
+					ctx.Violation("panic", fmt.Sprintf("TransformModFile panicked on a schema spelling: %v\n%s", pn, text), cs, "", fmt.Sprint(pn))
+					continue
+				}
+				if err == nil && mf != nil {
+					if sp.decoded != "1.2" || mf.Schema.Value != "1.2" {
+						ctx.Violation("schema-value", fmt.Sprintf("manifest accepted although its schema value is %q (returned %q), not exactly 1.2\n%s", sp.decoded, mf.Schema.Value, text), cs, "rejected (or schema exactly 1.2)", mf.Schema.Value)
+						continue
+					}
+					ctx.Flag("c15:schema-spelling-accepted")
+				} else {
+					ctx.Flag("c15:schema-spelling-rejected")
+				}
+			}
+		}
+	}
 	// YAML presentations x a path set with every kind of entry
 	if ctx.Shard == 0 {
 		sets := [][]string{
@@ -636,7 +674,7 @@ func init() {
 	core.Register(&core.Check{
 		ID: "C15",
 		Rule: "every path string of length <= 5 (quick) / <= 6 (thorough, plus length 7 with one of . % \\ in the middle) over the alphabet { . / \\ % 2 5 e E f F c C + a g }, bare and with .fga / %2Efga / %2efga appended, " +
-			"as single entry and (length <= 3) as second and third entry behind good ones, in a single-quoted block-sequence manifest; every sequence of 1-4 segments from a menu of 10 parent-segment look-alikes (.., ..., a.., ..a, v1..2, a, ., %2e%2e, %2E., empty) x 4 separator spellings; manifests of 4..128 entries with none / the second / the middle / the last offending; 16 entry sets x 15 YAML presentations (block/flow, plain/single/double/folded/literal scalars, key order, indentation, comments, CRLF, document start, anchors); " +
+			"as single entry and (length <= 3) as second and third entry behind good ones, in a single-quoted block-sequence manifest; every sequence of 1-4 segments from a menu of 10 parent-segment look-alikes (.., ..., a.., ..a, v1..2, a, ., %2e%2e, %2E., empty) x 4 separator spellings; manifests of 4..128 entries with none / the second / the middle / the last offending; 22 spellings of the schema value (every scalar style, with white space a tolerant comparison would forgive) x 2 key orders; 16 entry sets x 15 YAML presentations (block/flow, plain/single/double/folded/literal scalars, key order, indentation, comments, CRLF, document start, anchors); " +
 			"25 malformed manifests (missing/wrong-typed/duplicated keys, non-string entries). Oracle: own percent decoder and segment analysis; positions from the generator's offsets; in multi-entry manifests an entry has an error exactly if it is rejected alone. " +
 			"states = outcome classes, non-trivial = distinct path strings",
 		Assume: []string{
@@ -658,6 +696,16 @@ func init() {
 			var cs c15Case
 			if err := json.Unmarshal(c, &cs); err != nil {
 				panic(err)
+			}
+			if cs.M == nil {
+				// a schema spelling: accepted only if the scalar means exactly 1.2, and then returned as exactly 1.2
+				mf, err, pn := runMod(cs.Text)
+				if pn != nil {
+					ctx.Violation("panic", fmt.Sprintf("TransformModFile panicked: %v", pn), cs, "", fmt.Sprint(pn))
+				} else if err == nil && mf != nil && (mf.Schema.Value != "1.2" || cs.Decoded != "1.2") {
+					ctx.Violation("schema-value", fmt.Sprintf("manifest accepted although its schema value is %q (returned %q)", cs.Decoded, mf.Schema.Value), cs, "rejected (or schema exactly 1.2)", mf.Schema.Value)
+				}
+				return
 			}
 			c15Judge(ctx, cs.Name, cs.M, cs.M != nil && len(cs.M.Items) == len(cs.M.Entries) && !cs.M.WantErr)
 		},
